@@ -486,9 +486,25 @@ MUTANTS = [
     {"name": "solve-in-place-on-reference", "file": CV_MAIN, "old": "flag = SUNLinSolSolve(LS, A, r, b, 0.0);", "new": "flag = SUNLinSolSolve(LS, A, b, b, 0.0);", "rules": ["R3"]},
     {"name": "factor-skips-electron-slot", "file": FILE, "old": "        for spec in species:\n            counts =", "new": "        for spec in [s for s in species if not s.is_electron]:\n            counts =", "rules": ["R1"]},
     {"name": "abundance-wrong-zip", "file": OD_RENORM, "old": "{% for spec, fac in zip(network.species, renorm.factor) -%}", "new": "{% for spec, fac in zip(network.species | rejectattr('is_electron'), renorm.factor) -%}", "rules": ["R2"]},
+    # hardening round 4: the accepted helper / loop / floor-division spellings carrying a defect
+    {"name": "matrix-helper-row-mass", "edits": [
+        {"file": FILE, "old": "    def _prepare_renorm_content(self, netinfo: NetworkInfo) -> RenormContent:\n", "new": "    @staticmethod\n    def _coupling(species, rname, cname, celem):\n        terms = [\"0.0\"]\n        for spec in species:\n            nr = spec.element_count.get(rname, 0)\n            nc = spec.element_count.get(cname, 0)\n            if not spec.is_electron and nr and nc:\n                terms.append(f\"{(nr * nc * celem.A)} * ab[IDX_{spec.alias}] / {spec.A} / Hnuclei\")\n        return \" + \".join(terms)\n\n    def _prepare_renorm_content(self, netinfo: NetworkInfo) -> RenormContent:\n"},
+        {"file": FILE, "old": "        matrix = []\n        for iele, einame in enumerate(elemnames):\n            for jele, ejname in enumerate(elemnames):\n                terms = [\"0.0\"]\n                for ispec, spec in enumerate(species):\n                    ci = spec.element_count.get(einame, 0)\n                    cj = spec.element_count.get(ejname, 0)\n                    if not spec.is_electron and ci and cj:\n                        terms.append(\n                            f\"{(ci * cj * elements[jele].A)} * ab[IDX_{spec.alias}] / {spec.A} / Hnuclei\"\n                        )\n                matrix.append(\" + \".join(terms))\n", "new": "        matrix = [\n            self._coupling(species, rname, cname, celem)\n            for rname in elemnames\n            for cname, celem in zip(elemnames, reversed(elements))\n        ]\n"}], "rules": ["R1"]},
+    {"name": "factor-loop-without-mass", "file": FILE, "old": "        renorm = []\n        for spec in species:\n            counts = [spec.element_count.get(ename, 0) for ename in elemnames]\n            factor = [\n                f\"{c * elem.A} * rptr[IDX_ELEM_{ename}] / {spec.A}\"\n                for c, ename, elem in zip(counts, elemnames, elements)\n                if c\n            ]\n            renorm.append(1.0 if spec.is_electron else \" + \".join(factor))\n", "new": "        renorm = []\n        for spec in species:\n            parts = []\n            for ename, elem in zip(elemnames, elements):\n                n_at = spec.element_count.get(ename, 0)\n                if not n_at:\n                    continue\n                parts.append(\"{} * rptr[IDX_ELEM_{}] / {}\".format(n_at, ename, spec.A))\n            if spec.is_electron:\n                renorm.append(1.0)\n            else:\n                renorm.append(\" + \".join(parts))\n", "rules": ["R1"]},
+    {"name": "factor-loop-skips-electron-slot", "file": FILE, "old": "        renorm = []\n        for spec in species:\n            counts = [spec.element_count.get(ename, 0) for ename in elemnames]\n            factor = [\n                f\"{c * elem.A} * rptr[IDX_ELEM_{ename}] / {spec.A}\"\n                for c, ename, elem in zip(counts, elemnames, elements)\n                if c\n            ]\n            renorm.append(1.0 if spec.is_electron else \" + \".join(factor))\n", "new": "        renorm = []\n        for spec in species:\n            parts = []\n            for ename, elem in zip(elemnames, elements):\n                n_at = spec.element_count.get(ename, 0)\n                if not n_at:\n                    continue\n                parts.append(\"{} * rptr[IDX_ELEM_{}] / {}\".format(n_at * elem.A, ename, spec.A))\n            if not spec.is_electron:\n                renorm.append(\" + \".join(parts))\n", "rules": ["R1"]},
+    {"name": "decode-floordiv-swapped", "file": OD_RENORM, "old": "{% set i, j = (loop.index0/nelem) | int, loop.index0%nelem -%}", "new": "{% set j, i = loop.index0 // nelem, loop.index0 % nelem -%}", "rules": ["R2"]},
+    {"name": "abundance-concat-wrong-alias", "file": OD_RENORM, "old": "    {% set specidx = spec.alias | prefix(\"IDX_\") -%}\n    ab[{{ specidx }}] = ab[{{ specidx }}] * ({{ fac }});", "new": "    {% set slot = \"ab[\" ~ (spec.name | prefix(\"IDX_\")) ~ \"]\" -%}\n    {{ slot }} = {{ slot }} * ({{ fac }});", "rules": ["R2"]},
     {"name": "ref-not-normalised", "file": OD_MAIN, "old": "ab_ref_[i] = ref[i] / ref[IDX_ELEM_H];", "new": "ab_ref_[i] = ref[i];", "rules": ["R3"]},
 ]
 BENIGN = [
     {"name": "coefficient-commuted", "file": FILE, "old": "{(ci * cj * elements[jele].A)}", "new": "{(elements[jele].A * cj * ci)}"},
+    # hardening round 4
+    {"name": "matrix-entry-helper", "edits": [
+        {"file": FILE, "old": "    def _prepare_renorm_content(self, netinfo: NetworkInfo) -> RenormContent:\n", "new": "    @staticmethod\n    def _coupling(species, rname, cname, celem):\n        terms = [\"0.0\"]\n        for spec in species:\n            nr = spec.element_count.get(rname, 0)\n            nc = spec.element_count.get(cname, 0)\n            if not spec.is_electron and nr and nc:\n                terms.append(f\"{(nr * nc * celem.A)} * ab[IDX_{spec.alias}] / {spec.A} / Hnuclei\")\n        return \" + \".join(terms)\n\n    def _prepare_renorm_content(self, netinfo: NetworkInfo) -> RenormContent:\n"},
+        {"file": FILE, "old": "        matrix = []\n        for iele, einame in enumerate(elemnames):\n            for jele, ejname in enumerate(elemnames):\n                terms = [\"0.0\"]\n                for ispec, spec in enumerate(species):\n                    ci = spec.element_count.get(einame, 0)\n                    cj = spec.element_count.get(ejname, 0)\n                    if not spec.is_electron and ci and cj:\n                        terms.append(\n                            f\"{(ci * cj * elements[jele].A)} * ab[IDX_{spec.alias}] / {spec.A} / Hnuclei\"\n                        )\n                matrix.append(\" + \".join(terms))\n", "new": "        matrix = [\n            self._coupling(species, rname, cname, celem)\n            for rname in elemnames\n            for cname, celem in zip(elemnames, elements)\n        ]\n"}]},
+    {"name": "factor-by-loop-two-appends", "file": FILE, "old": "        renorm = []\n        for spec in species:\n            counts = [spec.element_count.get(ename, 0) for ename in elemnames]\n            factor = [\n                f\"{c * elem.A} * rptr[IDX_ELEM_{ename}] / {spec.A}\"\n                for c, ename, elem in zip(counts, elemnames, elements)\n                if c\n            ]\n            renorm.append(1.0 if spec.is_electron else \" + \".join(factor))\n", "new": "        renorm = []\n        for spec in species:\n            parts = []\n            for ename, elem in zip(elemnames, elements):\n                n_at = spec.element_count.get(ename, 0)\n                if not n_at:\n                    continue\n                parts.append(\"{} * rptr[IDX_ELEM_{}] / {}\".format(n_at * elem.A, ename, spec.A))\n            if spec.is_electron:\n                renorm.append(1.0)\n            else:\n                renorm.append(\" + \".join(parts))\n"},
+    {"name": "decode-floordiv-prefix-late", "file": OD_RENORM, "old": "    {% set elemidxnames = network.elements | map(attribute=\"element_count\") | map(\"first\") | map(\"prefix\", \"IDX_ELEM_\") | list %}\n    {% set nelem = elemidxnames | length %}\n\n    {% for term in renorm.matrix -%}\n    {% set i, j = (loop.index0/nelem) | int, loop.index0%nelem -%}\n    A({{ elemidxnames[i] }}, {{ elemidxnames[j] }})",
+      "new": "    {% set enames = network.elements | map(attribute=\"element_count\") | map(\"first\") | list %}\n    {% set nelem = enames | length %}\n\n    {% for term in renorm.matrix -%}\n    {% set i, j = loop.index0 // nelem, loop.index0 % nelem -%}\n    A({{ enames[i] | prefix(\"IDX_ELEM_\") }}, {{ enames[j] | prefix(\"IDX_ELEM_\") }})"},
+    {"name": "abundance-concat", "file": OD_RENORM, "old": "    {% set specidx = spec.alias | prefix(\"IDX_\") -%}\n    ab[{{ specidx }}] = ab[{{ specidx }}] * ({{ fac }});", "new": "    {% set slot = \"ab[\" ~ (spec.alias | prefix(\"IDX_\")) ~ \"]\" -%}\n    {{ slot }} = {{ slot }} * ({{ fac }});"},
     {"name": "guard-commuted", "file": FILE, "old": "if not spec.is_electron and ci and cj:", "new": "if ci and cj and not spec.is_electron:"},
 ]
